@@ -3,6 +3,7 @@ package roverif
 import (
 	"errors"
 	"fmt"
+	"runtime"
 	"strings"
 
 	"github.com/samber/ro"
@@ -46,7 +47,7 @@ func init() {
 			}
 			out := []*Scn{base}
 			for _, c := range res.CallLog {
-				kinds := []string{"panic-err", "panic-str"}
+				kinds := []string{"panic-err", "panic-str", "panic-rt"}
 				if c.Site == "MapErr" {
 					kinds = append(kinds, "ret-err")
 				}
@@ -173,6 +174,9 @@ func runC07(e *Env) {
 		switch f.Kind {
 		case "panic-err", "ret-err":
 			return errors.Is(err, ScriptError(90+f.Arg))
+		case "panic-rt":
+			var rt runtime.Error
+			return errors.As(err, &rt) && strings.Contains(err.Error(), "nil map")
 		default:
 			return err != nil && strings.Contains(err.Error(), fmt.Sprintf("injected-panic-%d (100%% sure, 5%%d)", f.Arg))
 		}
@@ -325,7 +329,7 @@ func init() {
 				srcs = append(srcs, s)
 				obs = append(obs, s.Obs())
 			}
-			o := combs[sc.Sub].Build(e, obs)
+			o := combs[sc.Sub].Apply(e, obs)
 			rec := e.NewRec("o")
 			h := e.Subscribe(o, rec.Observer(), nil)
 			e.Settle()
